@@ -67,13 +67,50 @@ func vCondParked(c *sync.Cond) int {
 // the list of ranks held by the harness goroutine: taking a lock while holding one of the
 // same or a higher rank is an acquisition against the hierarchy
 //
-//	Stream.writeLock (0)  <  Association.lock (1)  <  Stream.lock (2)
+//	Stream.writeLock (0)  <  Association.lock (1)  <  Stream.lock (2)  <  Association.timerMu (3)
 //
-// and, with another goroutine acquiring in hierarchy order, a deadlock.
+// and, with another goroutine acquiring in hierarchy order, a deadlock. Goroutines of the
+// code under check that run live (vGoLive) are tracked too: natively each has its own list
+// (keyed by goroutine id); in the engine, where they run while the harness goroutine is
+// parked, the engine swaps the list around them (runQueued).
 var (
-	vHeldRanks []int
-	vMainGoid  uint64
+	vHeldRanks  []int
+	vMainGoid   uint64
+	vOtherMu    sync.Mutex
+	vOtherRanks = map[uint64]*[]int{}
+	vAsyncMsg   string // native only: an assertion that failed on a goroutine other than the harness one
 )
+
+// vRanks: the list of ranks held by the calling goroutine.
+func vRanks() *[]int {
+	if vOnMain() {
+		return &vHeldRanks
+	}
+	id := vGoid()
+	vOtherMu.Lock()
+	defer vOtherMu.Unlock()
+	p := vOtherRanks[id]
+	if p == nil {
+		p = new([]int)
+		vOtherRanks[id] = p
+	}
+	return p
+}
+
+func vRankAssert(c bool, msg string) {
+	if c {
+		return
+	}
+	if vOnMain() {
+		vassert(false, msg)
+		return
+	}
+	vOtherMu.Lock()
+	if vAsyncMsg == "" {
+		vAsyncMsg = msg
+	}
+	vOtherMu.Unlock()
+}
 
 func vGoid() uint64 {
 	var buf [64]byte
@@ -92,26 +129,38 @@ func vGoid() uint64 {
 // vOnMain: is this the goroutine that runs the harness (always, in the engine)?
 func vOnMain() bool { return vMainGoid == 0 || vGoid() == vMainGoid }
 
-var vRankNames = [...]string{"Stream.writeLock", "Association.lock", "Stream.lock"}
+var vRankNames = [...]string{"Stream.writeLock", "Association.lock", "Stream.lock", "Association.timerMu"}
 
 func vLockAcquire(rank int) {
-	if !vOnMain() {
-		return
+	if vRaceMode && !vOnMain() {
+		return // the touchers of a lockset replay are not code under check
 	}
-	for _, h := range vHeldRanks {
-		vassert(h < rank, "lock hierarchy: "+vRankNames[rank]+" is acquired while "+vRankNames[h]+" is held")
+	held := vRanks()
+	for _, h := range *held {
+		vRankAssert(h < rank, "lock hierarchy: "+vRankNames[rank]+" is acquired while "+vRankNames[h]+" is held")
 	}
-	vHeldRanks = append(vHeldRanks, rank)
+	*held = append(*held, rank)
 }
 
 func vLockTaken(rank int) {
-	if vOnMain() {
-		vHeldRanks = append(vHeldRanks, rank)
+	if vRaceMode && !vOnMain() {
+		return
 	}
+	held := vRanks()
+	*held = append(*held, rank)
 }
 
 func vLockRelease(rank int) {
 	if !vOnMain() {
+		if !vRaceMode {
+			held := vRanks()
+			for i := len(*held) - 1; i >= 0; i-- {
+				if (*held)[i] == rank {
+					*held = append((*held)[:i], (*held)[i+1:]...)
+					break
+				}
+			}
+		}
 		return
 	}
 	if vRaceMode {
@@ -251,3 +300,15 @@ func vRunSpawned() int {
 // vSleep lets d pass on the clock the code under check reads (engine: the concrete clock
 // jumps; native: a real sleep).
 func vSleep(d time.Duration) { time.Sleep(d) }
+
+type vLkTimer struct{ sync.Mutex }
+
+func (l *vLkTimer) Lock()   { vLockAcquire(3); l.Mutex.Lock() }
+func (l *vLkTimer) Unlock() { l.Mutex.Unlock(); vLockRelease(3) }
+func (l *vLkTimer) TryLock() bool {
+	ok := l.Mutex.TryLock()
+	if ok {
+		vLockTaken(3)
+	}
+	return ok
+}
